@@ -35,16 +35,23 @@ def assessCoin (cfg : Cfg) (a : Assess) : Option Coin :=
   else if a.amount.1 = cfg.convDenom then some a.amount
   else none
 
+/-- The additional fee configured for the message's type. -/
+def schedIncurred (cfg : Cfg) (m : RMsg) : List Incurred :=
+  match lookupFee cfg m.typ with
+  | some f => if 0 < f.fee.2 then [⟨f.fee.1, f.fee.2, f.recipient, f.bips⟩] else []
+  | none => []
+
+/-- The custom assessed fee of a `MsgAssessCustomMsgFeeRequest`; the recipient gets all of it
+unless the message names basis points. -/
+def assessIncurred (cfg : Cfg) (a : Assess) : List Incurred :=
+  match assessCoin cfg a with
+  | some c => if 0 < c.2 then [⟨c.1, c.2, a.recipient, a.bips.getD 10000⟩] else []
+  | none => []
+
 /-- Fees incurred by routing one message. -/
 def incurredOf (cfg : Cfg) (m : RMsg) : List Incurred :=
-  (match lookupFee cfg m.typ with
-   | some f => if 0 < f.fee.2 then [⟨f.fee.1, f.fee.2, f.recipient, f.bips⟩] else []
-   | none => []) ++
-  (match m.assess with
-   | some a =>
-     match assessCoin cfg a with
-     | some c => if 0 < c.2 then [⟨c.1, c.2, a.recipient, a.bips.getD 10000⟩] else []
-     | none => []
+  schedIncurred cfg m ++ (match m.assess with
+   | some a => assessIncurred cfg a
    | none => [])
 
 def coinsIncurred (cs : Coins) : List Incurred := cs.map fun c => ⟨c.1, c.2, "", 0⟩
